@@ -24,7 +24,7 @@ SPEC = {
     "assumptions": ["headers are ASCII; no trailing blanks after 'M  END' or after a continuation dash (outside the variations the property lists)",
                     "identity data = element, isotope mass, radical, adjacency; held fixed by construction"],
     "monitors_required": ["c06_pair_compare"],
-    "required_obs": {"quick": ["dimension/" + d for d in DIMENSIONS]},
+    "required_obs": {"quick": ["dimension/" + d for d in DIMENSIONS] + ["cov_corpus_base"]},
     "watchdog_s": {"quick": 900, "thorough": 5400},
 }
 PLAN = {"quick": {"cases": 1500}, "thorough": {"cases": 20000}}
@@ -199,6 +199,14 @@ def run(ctx):
     for k in range(common.share(ctx, plan["cases"])):
         mol = gen_mol(rng)
         run_case(ctx, {"mol": mol.to_json(), "vseed": f"{ctx.seed}/{ctx.shard}/{k}"})
+
+
+    for path, mol in common.corpus_mols(ctx, every=1 if ctx.tier == "thorough" else 3):
+        if len(mol.atoms) <= 120:
+            for a in mol.atoms:
+                a.mass = min(a.mass, 999)
+            run_case(ctx, {"mol": mol.to_json(), "vseed": f"{ctx.seed}/corpus/{mol.name}"})
+            ctx.count("cov_corpus_base")
 
 
 def replay(ctx, w):
